@@ -103,6 +103,8 @@ class FnTranslator:
                 return Val(str(e.value), "N" if e.value >= 0 else "Z")
             if isinstance(e.value, float):
                 return Val(_lit_float(e.value), "R")
+            if e.value is None:
+                return Val("none", "NONE")
             raise Unsupported(f"constant {e.value!r}")
         if isinstance(e, ast.Name):
             if e.id not in env.kinds:
@@ -147,6 +149,8 @@ class FnTranslator:
             c, a, b = self.expr(e.test, env), self.expr(e.body, env), self.expr(e.orelse, env)
             if c.kind != "B":
                 raise Unsupported("conditional expression on non-bool")
+            if b.kind == "NONE" and a.kind in ("N", "Z"):
+                return Val(f"(if {c.code} then some ({a.code} : Int) else none)", "OZ")
             if a.kind != b.kind:
                 if {a.kind, b.kind} <= {"N", "Z"}:
                     a, b = self.coerce(a, "Z"), self.coerce(b, "Z")
@@ -158,7 +162,7 @@ class FnTranslator:
         raise Unsupported(f"line {getattr(e, 'lineno', '?')}: expression {type(e).__name__}")
 
     LT_ALL = {"R": "α", "N": "Nat", "Z": "Int", "B": "Bool", "LR": "List α", "LZ": "List Int", "A": "Arr α", "A2": "Arr2 α", "IA": "Arr Nat",
-              "AB": "Arr Bool", "AZ": "Arr Int"}
+              "AB": "Arr Bool", "AZ": "Arr Int", "FZ": "Int → Int", "OZ": "Option Int"}
 
     def coerce(self, v: Val, kind: str, lineno: int = 0) -> Val:
         if v.kind == kind:
@@ -198,6 +202,10 @@ class FnTranslator:
         if isinstance(op, ast.Pow):
             a, b = self.to_real(a), self.to_real(b)
             return Val(f"(RealLike.pow {a.code} {b.code})", "R")
+        if isinstance(op, ast.FloorDiv):
+            if a.kind in ("N", "Z") and b.kind in ("N", "Z"):
+                return Val(f"(Int.fdiv ({a.code} : Int) ({b.code} : Int))", "Z")      # Python // on ints: floor division
+            raise Unsupported(f"line {e.lineno}: floor division on reals")
         if sym is None:
             raise Unsupported(f"line {e.lineno}: operator {type(op).__name__}")
         if a.kind == "R" or b.kind == "R" or isinstance(op, ast.Div):
@@ -365,6 +373,11 @@ class FnTranslator:
             if v.kind not in ("A", "A2", "IA"):
                 raise Unsupported(f"line {e.lineno}: .{f.attr}() of a non-array")
             return v          # arrays are values in the model: a copy is the same value
+        if isinstance(f, ast.Name) and env.kinds.get(f.id) == "FZ" and len(e.args) == 1 and not e.keywords:
+            a = self.expr(e.args[0], env)
+            if a.kind not in ("N", "Z"):
+                raise Unsupported(f"line {e.lineno}: argument of {f.id}")
+            return Val(f"({f.id} ({a.code} : Int))", "Z")
         if name in self.known:
             info = self.known[name]
             args = [self.expr(a, env) for a in e.args]
@@ -1184,8 +1197,73 @@ def gen_noise(repo: str = REPO) -> Tuple[str, List[str]]:
 UTILS_SIGS = {"kaiser_alpha": {"psll": "R"}, "kaiser_rov": {"alpha": "R"}, "round_half_up": {"val": "R"}}
 
 
+FIND_JDES_CALL = ["call_kwargs = dict(args)", "call_kwargs['Jdes'] = int(Jdes)", "output = scheduler(**call_kwargs)",
+                  "nf = output.get('nf') if isinstance(output, dict) else None",
+                  "if nf is None:\n    raise ValueError(\"Scheduler did not return 'nf' in output.\")"]
+
+
+def _find_jdes_function(fn: ast.FunctionDef, consts: Dict[str, int]) -> ast.FunctionDef:
+    """`find_Jdes_binary_search` as a function of (nf_of, target_nf): the five statements that call the scheduler with the
+    candidate Jdes and read its 'nf' are the external-call contract `nf = nf_of(Jdes)` (recognised textually, anything else is
+    Unsupported); module constants are inlined; `return Jdes` inside the loop becomes a carried (found, result) pair."""
+    body = [b for b in fn.body if not (isinstance(b, ast.Expr) and isinstance(b.value, ast.Constant))]
+    if not (len(body) == 4 and isinstance(body[2], ast.While) and ast.unparse(body[3]) == "return None"):
+        raise Unsupported("find_Jdes_binary_search: shape (two initialisations, one while, return None) changed")
+    wh = body[2]
+    wb = [b for b in wh.body if not (isinstance(b, ast.Expr) and isinstance(b.value, ast.Constant))]
+    if len(wb) != 1 + len(FIND_JDES_CALL) + 1:
+        raise Unsupported("find_Jdes_binary_search: loop body has %d statements" % len(wb))
+    got = [ast.unparse(b) for b in wb[1:1 + len(FIND_JDES_CALL)]]
+    if got != FIND_JDES_CALL:
+        raise Unsupported("find_Jdes_binary_search: the scheduler call sequence changed: " + repr(got))
+    last = wb[-1]
+    if not (isinstance(last, ast.If) and len(last.body) == 1 and ast.unparse(last.body[0]) == "return Jdes"):
+        raise Unsupported("find_Jdes_binary_search: decision statement changed")
+    mk = lambda src: ast.parse(src).body
+    hit = mk("found__ = True\nres__ = Jdes")
+    new_last = ast.If(test=last.test, body=hit, orelse=last.orelse)
+    new_while = ast.While(test=ast.BoolOp(op=ast.And(), values=[mk("(not found__)")[0].value, wh.test]),
+                          body=[wb[0]] + mk("nf = nf_of(Jdes)") + [new_last], orelse=[])
+    new_body = body[:2] + mk("found__ = False\nres__ = 0") + [new_while] + mk("return (res__ if found__ else None)")
+
+    class Inline(ast.NodeTransformer):
+        def visit_Name(self, n):
+            if isinstance(n.ctx, ast.Load) and n.id in consts:
+                return ast.copy_location(ast.Constant(value=consts[n.id]), n)
+            return n
+    new = ast.FunctionDef(name="find_Jdes_binary_search", args=ast.arguments(posonlyargs=[], args=[ast.arg(arg="nf_of"), ast.arg(arg="target_nf")],
+                          kwonlyargs=[], kw_defaults=[], defaults=[]), body=[Inline().visit(b) for b in new_body], decorator_list=[], lineno=fn.lineno,
+                          end_lineno=fn.end_lineno)
+    ast.fix_missing_locations(new)
+    new.lineno, new.end_lineno = fn.lineno, fn.end_lineno
+    new.__dict__["_file"] = fn.__dict__.get("_file", "")
+    return new
+
+
 def gen_utils(repo: str = REPO) -> Tuple[str, Dict[str, FnInfo], List[str]]:
-    return translate_region(os.path.join(repo, "speckit/utils.py"), list(UTILS_SIGS.keys()), UTILS_SIGS, {})
+    path = os.path.join(repo, "speckit/utils.py")
+    out, known, errors = translate_region(path, list(UTILS_SIGS.keys()), UTILS_SIGS, {})
+    out = out[:out.rindex("end Gen")]
+    try:
+        tree = ast.parse(open(path).read())
+        consts = {t.targets[0].id: t.value.value for t in tree.body
+                  if isinstance(t, ast.Assign) and len(t.targets) == 1 and isinstance(t.targets[0], ast.Name)
+                  and isinstance(t.value, ast.Constant) and isinstance(t.value.value, int)}
+        fns = parse_functions(path)
+        if "find_Jdes_binary_search" not in fns:
+            raise Unsupported("function not found")
+        for c_ in ("MIN_JDES", "MAX_JDES"):
+            if c_ not in consts:
+                raise Unsupported(f"module constant {c_} not an integer literal")
+        tr = FnTranslator(_find_jdes_function(fns["find_Jdes_binary_search"], consts), {"nf_of": "FZ", "target_nf": "Z", "lower": "Z", "upper": "Z", "res__": "Z", "Jdes": "Z", "nf": "Z"}, {}, "find_Jdes_binary_search")
+        text, _ = tr.translate()
+        out += text + "\n"
+    except Unsupported as ex:
+        errors.append(f"find_Jdes_binary_search: {ex}")
+        msg = str(ex).replace("-/", "- /")
+        out += f"/- UNSUPPORTED find_Jdes_binary_search: {msg} -/\ndef find_Jdes_binary_search_UNSUPPORTED : Nat := translation_failed_find_Jdes_binary_search\n\n"
+    out += "end Gen\n"
+    return out, known, errors
 
 
 GEN_DIR = os.path.join(os.path.dirname(os.path.abspath(__file__)), "..", "lean", "SpecKitV", "Gen")
